@@ -360,8 +360,13 @@ class BacktestingDispatcher(EventDispatcher):
                 assert self._last_dt is None or next_dt >= self._last_dt, \
                     f"{next_dt} can't be dispatched after {self._last_dt}"
 
-                await self._dispatch_scheduled(next_dt)
-                await self._dispatch_events(next_dt)
+                # Scheduled jobs go first, but only those for the earliest scheduled time. They might push events that
+                # have to be dispatched, at their own time, before the next scheduled job or event.
+                next_scheduled_dt = self._scheduler_queue.peek_next_event_dt()
+                if next_scheduled_dt and next_scheduled_dt <= next_dt:
+                    await self._dispatch_scheduled(next_scheduled_dt)
+                else:
+                    await self._dispatch_events(next_dt)
             else:
                 # Dispatch all pending scheduled before stopping.
                 if last_scheduled_dt := self._scheduler_queue.peek_last_event_dt():
